@@ -9,7 +9,7 @@ From Exmex.Model Require Import Base EvalBinary Lexer Flat Deep Convert Calc Par
 From Exmex.Gen Require Import Tables.
 From Exmex.Spec Require Import RefSem.
 From Exmex.Proofs Require Import Vars DeepVars ChainMachine SortDesc EvalBinaryCorrect RemoveLoop DeepSem DeepCompile DeepSubs C11Main DeepOps Hereditary
-  RuleAnalysis RealCarrier PartialRuled.
+  Unparse UnparseParsed UokOps RuleAnalysis RealCarrier PartialRuled.
 Open Scope nat_scope.
 
 Local Notation tb := float_table.
@@ -23,16 +23,17 @@ Variable DC : dcarrier D.
 Lemma fine_ok {A} (P : A -> Prop) x : P x -> fine P (Ok x).
 Proof. intros H; exact H. Qed.
 
-Definition Wc (a : deepex D) : Prop := dclosed tfl (dvars a) a.
+Definition Wc (a : deepex D) : Prop := dclosed tfl (dvars a) a /\ uok tb a.
 
 (* the structural halves of the theorems about operator application, with the trivial relation *)
 Local Notation TR := (fun _ _ : D => True).
 Lemma op_bin_fine name k a b : find_op name tb 0 = Some k -> is_bin tb k = true -> Wc a -> Wc b -> fine Wc (operate_bin C tb a b name).
 Proof.
-  intros Hf Hb Ha Hbb.
+  intros Hf Hb [Ha Ua] [Hbb Ub].
   destruct (operate_bin_ok C tb TR (fun _ => I) (fun _ _ _ => I) (fun _ _ _ _ _ => I) (fun _ _ _ _ _ _ _ => I) (fun _ _ _ _ => I)
               (fun _ _ _ _ _ => I) a b name k Hf Hb Ha Hbb) as (e & He & Hc & _).
-  rewrite He. cbn [fine]. unfold Wc. rewrite (dconsistent_vars _ _ _ Hc). exact (dconsistent_closed _ _ _ Hc).
+  rewrite He. cbn [fine]. split; [|exact (operate_bin_uok C tb a b e name Ua Ub He)].
+  rewrite (dconsistent_vars _ _ _ Hc). exact (dconsistent_closed _ _ _ Hc).
 Qed.
 Lemma dvars_operate_unary' (a r : deepex D) name : operate_unary C tb a name = Ok r -> dvars r = dvars a.
 Proof.
@@ -42,30 +43,34 @@ Proof.
 Qed.
 Lemma op_un_fine name k a : find_op name tb 0 = Some k -> has_un tb k = true -> Wc a -> fine Wc (operate_unary C tb a name).
 Proof.
-  intros Hf Hu Ha.
+  intros Hf Hu [Ha Ua].
   destruct (operate_unary_ok C tb TR (fun _ => I) (fun _ _ _ => I) (fun _ _ _ _ _ => I) (fun _ _ _ _ _ _ _ => I) (fun _ _ _ _ => I)
               (fun _ _ _ _ _ => I) (fun _ _ => dflt C) (names_in (dvars a)) any_vars a name k Hf Hu Ha) as (e & He & Hw & _).
-  rewrite He. cbn [fine]. unfold Wc. rewrite (dvars_operate_unary' a e name He). exact Hw.
+  rewrite He. cbn [fine]. split; [|exact (operate_unary_uok C tb a e name Ua He)]. rewrite (dvars_operate_unary' a e name He). exact Hw.
 Qed.
 Lemma union_fine a b : Wc a -> Wc b -> fine (fun p => Wc (fst p) /\ Wc (snd p)) (var_names_union a b).
 Proof.
-  intros Ca Cb. unfold var_names_union, union_names. set (all := sort_strs (dvars a ++ dvars b)).
+  intros [Ca Ua] [Cb Ub]. unfold var_names_union, union_names. set (all := sort_strs (dvars a ++ dvars b)).
   assert (Ia : incl (dvars a) all) by (intros y Hy; apply sort_strs_spec; apply in_or_app; left; exact Hy).
   assert (Ib : incl (dvars b) all) by (intros y Hy; apply sort_strs_spec; apply in_or_app; right; exact Hy).
   destruct (reset_vars_ok C tfl all a (dclosed_mono tfl _ _ a Ia Ca)) as (a1 & Ea & Ha1 & _).
   destruct (reset_vars_ok C tfl all b (dclosed_mono tfl _ _ b Ib Cb)) as (b1 & Eb & Hb1 & _).
   rewrite Ea. cbn [bind]. rewrite Eb. cbn [bind fine fst snd]. unfold Wc.
-  rewrite (dconsistent_vars _ _ _ Ha1), (dconsistent_vars _ _ _ Hb1). split; apply dconsistent_closed; assumption.
+  rewrite (dconsistent_vars _ _ _ Ha1), (dconsistent_vars _ _ _ Hb1).
+  split; (split; [apply dconsistent_closed; assumption|]); [exact (reset_vars_uok tb all a a1 Ua Ea)|exact (reset_vars_uok tb all b b1 Ub Eb)].
 Qed.
 Lemma const_Wc (d : D) vars : Wc (DE [DNum d] [] [] vars).
-Proof. unfold Wc, dclosed. rewrite dwf_unfold. split; [reflexivity|]. split; [exact I|]. split; [intros o []|constructor; [exact I|constructor]]. Qed.
+Proof.
+  split; [unfold dclosed; rewrite dwf_unfold; split; [reflexivity|]; split; [exact I|]; split; [intros o []|constructor; [exact I|constructor]]|].
+  rewrite uok_unfold. split; [reflexivity|constructor; [exact I|constructor]].
+Qed.
 Lemma from_num_fine d : fine Wc (from_num C d).
-Proof. unfold from_num. cbn. split; [reflexivity|]. split; [exact I|]. split; [intros o []|split; exact I]. Qed.
+Proof. unfold from_num. change (new_deepex C [DNum d] [] []) with (Ok (DE [DNum d] [] [] []) : res (deepex D)). exact (const_Wc d []). Qed.
 (* the literal expressions zero and one *)
 Lemma zero_like_fine (f1 : deepex D) : fine Wc (do z <- d_zero C DC; Ok (like_other z f1)).
-Proof. cbn. split; [reflexivity|]. split; [exact I|]. split; [intros o []|split; exact I]. Qed.
+Proof. change (do z <- d_zero C DC; Ok (like_other z f1)) with (Ok (DE [DNum (dc_zero DC)] [] [] (dvars f1)) : res (deepex D)). exact (const_Wc _ _). Qed.
 Lemma one_like_fine (f1 : deepex D) : fine Wc (do o <- d_one C DC; Ok (like_other o f1)).
-Proof. cbn. split; [reflexivity|]. split; [exact I|]. split; [intros o []|split; exact I]. Qed.
+Proof. change (do o <- d_one C DC; Ok (like_other o f1)) with (Ok (DE [DNum (dc_one DC)] [] [] (dvars f1)) : res (deepex D)). exact (const_Wc _ _). Qed.
 
 Lemma add_fine a b : Wc a -> Wc b -> fine Wc (d_add C DC tb a b).
 Proof.
@@ -103,8 +108,9 @@ Lemma un_fine name k a : find_op name tb 0 = Some k -> has_un tb k = true -> Wc 
 Proof. intros Hf Hu Ha. exact (op_un_fine name k a Hf Hu Ha). Qed.
 Lemma wlu_fine (e : deepex D) k us : Wc e -> duop e = k :: us -> fine (fun x => Wc x /\ duop x = us /\ dnodes x = dnodes e /\ dbops x = dbops e /\ dvars x = dvars e) (wlu e).
 Proof.
-  intros He Hu. destruct e as [n b u v]. cbn [duop] in Hu. subst u. cbn [wlu fine dnodes dbops dvars duop]. split; [|repeat split].
-  unfold Wc, dclosed in *. cbn [dvars] in *. rewrite dwf_unfold in *. exact He.
+  intros [He Ue] Hu. destruct e as [n b u v]. cbn [duop] in Hu. subst u. cbn [wlu fine dnodes dbops dvars duop]. split; [|repeat split].
+  split; [unfold dclosed in *; cbn [dvars] in *; rewrite dwf_unfold in *; exact He|].
+  rewrite uok_unfold in *. destruct Ue as [U1 U2]. cbn [forallb] in U1. apply andb_prop in U1. split; [exact (proj2 U1)|exact U2].
 Qed.
 
 (* ---- the rules ---- *)
@@ -229,8 +235,8 @@ Variable vi : nat.
 Variable okvar : nat -> str -> Prop.
 Variable okvars : list str -> Prop.
 Local Notation hs e := (dwf tfl okvar okvars e /\ hc e).
-Lemma Wc_of (e : deepex D) : dwf tfl okvar okvars e -> hc e -> Wc e.
-Proof. intros Hw Hh. exact (hc_closed tfl okvar okvars e (dvars e) Hw Hh (incl_refl _)). Qed.
+Lemma Wc_of (e : deepex D) : dwf tfl okvar okvars e -> hc e -> uok tb e -> Wc e.
+Proof. intros Hw Hh Hu. split; [exact (hc_closed tfl okvar okvars e (dvars e) Hw Hh (incl_refl _))|exact Hu]. Qed.
 
 (* the level with one node, given what its node contributes *)
 Lemma single_fine (e : deepex D) (rr : res (deepex D)) : Wc e -> Forall uruled' (duop e) -> fine Wc rr ->
@@ -251,17 +257,18 @@ Proof.
     cbn [partial_deepex dnodes]. exact (single_fine _ _ Wl (Forall_nil _) zero_fine).
   - change (new_deepex C [DVar j x] [] []) with (Ok (DE [DVar j x] [] [] [x]) : res (deepex D)). cbn [bind].
     assert (Wl : Wc (DE [DVar j x] [] [] [x])).
-    { unfold Wc, dclosed. cbn [dvars]. rewrite dwf_unfold. split; [reflexivity|]. split; [exact I|]. split; [intros o []|]. constructor; [left; reflexivity|constructor]. }
+    { split; [unfold dclosed; cbn [dvars]; rewrite dwf_unfold; split; [reflexivity|]; split; [exact I|]; split; [intros o []|]; constructor; [left; reflexivity|constructor]|].
+      rewrite uok_unfold. split; [reflexivity|constructor; [exact I|constructor]]. }
     eapply fine_bind; [|intros d Wd; cbn [fine Wvd vd_val vd_der]; split; [exact Wl|exact Wd]].
     cbn [partial_deepex dnodes]. apply (single_fine _ _ Wl (Forall_nil _)). destruct (Nat.eqb j vi); [apply one_fine|apply zero_fine].
 Qed.
 
-Theorem partial_total : forall fuel (e : deepex D), ddepth e < fuel -> dwf tfl okvar okvars e -> hc e -> ruled tb e ->
+Theorem partial_total : forall fuel (e : deepex D), ddepth e < fuel -> dwf tfl okvar okvars e -> hc e -> uok tb e -> ruled tb e ->
   fine Wc (partial_deepex C DC tb fuel vi e MError).
 Proof.
-  induction fuel as [|fuel IH]; intros e Hd Hw Hh Hr; [lia|].
-  pose proof (Wc_of e Hw Hh) as We.
-  destruct e as [nodes bops uop vars].
+  induction fuel as [|fuel IH]; intros e Hd Hw Hh Huk Hr; [lia|].
+  pose proof (Wc_of e Hw Hh Huk) as We.
+  destruct e as [nodes bops uop vars]. rewrite uok_unfold in Huk. destruct Huk as [_ Hukn].
   pose proof Hw as Hw0. rewrite dwf_unfold in Hw. destruct Hw as (Hlen & _ & Hops & Hnodes).
   pose proof Hh as Hh0. rewrite hc_unfold in Hh.
   rewrite ruled_unfold in Hr. destruct Hr as (Rb & Ru & Rn).
@@ -270,9 +277,9 @@ Proof.
   destruct nodes as [|n [|n2 tl]]; [cbn in Hlen; discriminate| |].
   - (* one node *)
     apply (single_fine (DE [n] bops uop vars) _ We Hu).
-    inversion Hnodes as [|? ? Hn1 _]; subst. inversion Hh as [|? ? Hh1 _]; subst. inversion Rn as [|? ? Rn1 _]; subst.
-    destruct n as [e'|d0|j x]; cbn [nwf nhc nruled] in *; [|apply zero_fine|destruct (Nat.eqb j vi); [apply one_fine|apply zero_fine]].
-    apply (IH e'); [|exact Hn1|exact (proj2 Hh1)|exact Rn1].
+    inversion Hnodes as [|? ? Hn1 _]; subst. inversion Hh as [|? ? Hh1 _]; subst. inversion Rn as [|? ? Rn1 _]; subst. inversion Hukn as [|? ? Un1 _]; subst.
+    destruct n as [e'|d0|j x]; cbn [nwf nhc nruled Unparse.nuok] in *; [|apply zero_fine|destruct (Nat.eqb j vi); [apply one_fine|apply zero_fine]].
+    apply (IH e'); [|exact Hn1|exact (proj2 Hh1)|exact Un1|exact Rn1].
     pose proof (ddepth_in [DExpr e'] bops uop vars e' (or_introl eq_refl)). lia.
   - (* several nodes *)
     set (nodes := n :: n2 :: tl) in *.
@@ -286,11 +293,11 @@ Proof.
       cbn [mapM].
       assert (Hm : fine Wvd (do v <- match m with DExpr e' => Ok e' | _ => new_deepex C [m] [] [] end;
                              do d <- partial_deepex C DC tb fuel vi v MError; Ok {| vd_val := v; vd_der := d |})).
-      { pose proof (Hin m (or_introl eq_refl)) as Hmi. rewrite Forall_forall in Hnodes, Hh, Rn.
-        pose proof (Hnodes m Hmi) as W1. pose proof (Hh m Hmi) as H1. pose proof (Rn m Hmi) as R1.
-        destruct m as [e'|d0|j x]; cbn [nwf nhc nruled] in *; [|exact (leaf_fine fuel (DNum d0) Hfuel I)|exact (leaf_fine fuel (DVar j x) Hfuel I)].
-        cbn [bind]. eapply fine_bind; [apply (IH e'); [pose proof (ddepth_in nodes bops uop vars e' Hmi); lia|exact W1|exact (proj2 H1)|exact R1]|].
-        intros d Wd. cbn [fine Wvd vd_val vd_der]. split; [exact (Wc_of e' W1 (proj2 H1))|exact Wd]. }
+      { pose proof (Hin m (or_introl eq_refl)) as Hmi. rewrite Forall_forall in Hnodes, Hh, Rn, Hukn.
+        pose proof (Hnodes m Hmi) as W1. pose proof (Hh m Hmi) as H1. pose proof (Rn m Hmi) as R1. pose proof (Hukn m Hmi) as U1.
+        destruct m as [e'|d0|j x]; cbn [nwf nhc nruled Unparse.nuok] in *; [|exact (leaf_fine fuel (DNum d0) Hfuel I)|exact (leaf_fine fuel (DVar j x) Hfuel I)].
+        cbn [bind]. eapply fine_bind; [apply (IH e'); [pose proof (ddepth_in nodes bops uop vars e' Hmi); lia|exact W1|exact (proj2 H1)|exact U1|exact R1]|].
+        intros d Wd. cbn [fine Wvd vd_val vd_der]. split; [exact (Wc_of e' W1 (proj2 H1) U1)|exact Wd]. }
       eapply fine_bind; [exact Hm|]. intros vd Wvd1.
       eapply fine_bind; [exact (IHl (fun m' Hm' => Hin m' (or_intror Hm')))|]. intros vt [Wvt Lvt].
       cbn [fine]. split; [constructor; assumption|cbn [length]; lia].
